@@ -1,32 +1,40 @@
 (* C09/Properties.v — the property theorems of C09, and nothing else.
    Every theorem is closed by [exact <lemma>] and followed by Print Assumptions.
-   Scope of the model (C09/Model.v): threads with timed waits, `thread label`, locals that
-   are nil / integer / string / float bits / object reference / array of scalars shared by
-   reference.  waittill/notify, events, group and level variables, nested arrays are NOT in
-   the model; for them the property is only sampled on the real engine (props/C09.py). *)
+   Scope of the model (C09/Model.v): threads with timed waits, `thread label args`, locals
+   that are nil / integer / string / float bits / object reference / reference to a dynamic
+   or a constant array; one heap of holders whose slots hold values again (arrays of arrays,
+   constant inside dynamic and vice versa, self-containing holders), shared by reference
+   between variables, holders and threads (thread arguments).  waittill/notify, events,
+   group / level / game variables are NOT in the model; for them the property is only
+   sampled on the real engine (props/C09.py). *)
 From Coq Require Import NArith ZArith List Bool.
 From Morfuse Require Import C09.Model C09.Spec C09.ProofsIso C09.ProofsSave C09.ProofsWf C09.Proofs.
 Import ListNotations.
 Local Open Scope N_scope.
 
 (* load_save_iso.  For EVERY saveable state (wf: the members of the instance chains are
-   exactly the threads waiting in the timer, each once; identities below the counters)
-   saving succeeds, loading the archive into the reset engine succeeds, and the loaded
-   state is isomorphic to the saved one: equal up to (1) the renaming of thread identities
-   to their archive indices, (2) per thread the renaming of array-holder identities to
-   their archive indices (holders no variable reaches are dropped), (3) the order of the
-   instance list, which the loader REVERSES (every loaded instance is linked at the front);
-   kept exactly: timer list order and due times, chain order, code positions, variable
-   lists, scalars, which variables share a holder, holder contents, timer time, dirty flag,
-   clocks (C09/Spec.v: iso). *)
+   exactly the threads waiting in the timer, each once; identities in variables and inside
+   holders below the counters) saving succeeds (the writer's recursion never runs out of
+   fuel, also on holders that contain themselves), loading the archive into the reset
+   engine succeeds, and the loaded state is isomorphic to the saved one: equal up to (1)
+   the renaming of thread identities to their archive indices, (2) ONE renaming of holder
+   identities - dynamic and constant arrays alike - to their archive indices (holders that
+   nothing reaches are dropped), (3) the order of the instance list, which the loader
+   REVERSES (every loaded instance is linked at the front); kept exactly: timer list order
+   and due times, chain order, code positions, variable lists, scalars, the kind of every
+   array reference, WHICH variables / holder slots of WHICH threads share a holder (every
+   sharing class of either kind), holder contents, timer time, dirty flag, clocks
+   (C09/Spec.v: iso).  Every reference inside a loaded holder is below the new counter. *)
 Theorem C09_save_reset_load_gives_an_isomorphic_state :
   forall s : st, wf s ->
-    exists (a : archive) (s' : st), save s = Some a /\ load a (reset s) = Some s' /\ iso s s'.
+    exists (a : archive) (s' : st), save s = Some a /\ load a (reset s) = Some s' /\ iso s s' /\
+                                    heap_ok (heap s') (nextr s').
 Proof. exact load_save_iso. Qed.
 Print Assumptions C09_save_reset_load_gives_an_isomorphic_state.
 
 (* iso_behaviour.  Isomorphic states cannot be told apart by any continuation: the same
-   prints in the same order, the same idle and waiting flags, the same out-of-fuel
+   prints in the same order (also of elements reached through any alias of a holder, after
+   stores through any other alias), the same idle and waiting flags, the same out-of-fuel
    verdicts, for every list of host operations. *)
 Theorem C09_isomorphic_states_behave_alike :
   forall s1 s2 : st, iso s1 s2 -> forall ops : list op, run_from s1 ops = run_from s2 ops.
@@ -66,7 +74,7 @@ Theorem C09_save_reset_load_is_transparent :
 Proof. exact save_load_transparent. Qed.
 Print Assumptions C09_save_reset_load_is_transparent.
 
-(* ... and the final states (all variables, pending timers) are isomorphic too. *)
+(* ... and the final states (all variables, holders, pending timers) are isomorphic too. *)
 Theorem C09_final_states_are_isomorphic :
   forall (c : N) (ops1 ops2 : list op) (s : st),
     state_after (init c) ops1 = Some s ->
@@ -79,63 +87,88 @@ Theorem C09_final_states_are_isomorphic :
 Proof. exact save_load_final_states. Qed.
 Print Assumptions C09_final_states_are_isomorphic.
 
-(* A loaded state (any state isomorphic to a saveable one) is saveable again: the theorems
-   apply to every later save point as well. *)
-Theorem C09_an_isomorphic_state_is_saveable_again :
-  forall s1 s2 : st, iso s1 s2 -> wf s1 -> wf s2.
-Proof. exact iso_wf. Qed.
-Print Assumptions C09_an_isomorphic_state_is_saveable_again.
+(* The loaded state is saveable again: the theorems apply to every later save point too. *)
+Theorem C09_the_loaded_state_is_saveable_again :
+  forall s : st, wf s -> exists s' : st, save_reset_load s = Some s' /\ iso s s' /\ wf s'.
+Proof. exact loaded_state_wf. Qed.
+Print Assumptions C09_the_loaded_state_is_saveable_again.
 
-(* Non-vacuity.  Script A prints 1, makes local.4 an array {1: 7}, local.5 = local.4 (the
-   same holder), starts a thread in its own instance (prints 2, waits 1, prints 3), waits 2,
-   then writes local.5[2] = 9 and prints local.4[2]; script B holds an EMPTY string, waits 3
-   and prints it.  Saved right after both were started: three threads wait (identities 2, 1
-   in A's chain, 3), the holder has identity 1. *)
+(* iso transports saveability except for the bound on holders that nothing reaches (iso
+   ignores them). *)
+Theorem C09_an_isomorphic_state_is_saveable :
+  forall s1 s2 : st, iso s1 s2 -> wf s1 -> heap_ok (heap s2) (nextr s2) -> wf s2.
+Proof. exact iso_wf. Qed.
+Print Assumptions C09_an_isomorphic_state_is_saveable.
+
+(* Non-vacuity.  Script A: local.7 = 10::20::30 (a constant array), local.8 = local.7 (the
+   same holder), local.4[1] = 1, local.4[40] = local.4 (the dynamic array contains itself),
+   local.4[41] = local.7 (a constant array inside a dynamic one); it starts a thread of its
+   own instance with the ARGUMENTS local.4 local.7 (parameters local.101 local.102: the same
+   two holders) that waits 1, stores local.102[1] = 111, prints local.102[2], waits 2 and
+   prints local.101[5]; A itself waits 2, stores local.7[2] = 99 and local.4[5] = 55 and
+   prints local.8[2] and local.8[1].  Script B holds an EMPTY string, waits 3, prints it.
+   Saved right after both were started: three threads wait; holder 1 (constant) is reached
+   from 5 places in 2 threads and 1 holder, holder 2 (dynamic) from 3 places incl. itself. *)
+Definition exChild : prog :=
+  PSeq (IWait 1) (PSeq (ISetElem 102 1 (SInt 111)) (PSeq (IPrintElem 102 2)
+  (PSeq (IWait 2) (PSeq (IPrintElem 101 5) PEnd)))).
 Definition exA : prog :=
-  PSeq (IPrint 1) (PSeq (ISetElem 4 1 (SInt 7)) (PSeq (ICopy 5 4)
-  (PSeq (IThread (PSeq (IPrint 2) (PSeq (IWait 1) (PSeq (IPrint 3) PEnd))))
-  (PSeq (IWait 2) (PSeq (ISetElem 5 2 (SInt 9)) (PSeq (IPrintElem 4 2) PEnd)))))).
+  PSeq (IConst 7 [CLit (SInt 10); CLit (SInt 20); CLit (SInt 30)]) (PSeq (ICopy 8 7)
+  (PSeq (ISetElem 4 1 (SInt 1)) (PSeq (ISetElemVar 4 40 4) (PSeq (ISetElemVar 4 41 7)
+  (PSeq (IThread [4; 7] exChild) (PSeq (IWait 2) (PSeq (ISetElem 7 2 (SInt 99))
+  (PSeq (ISetElem 4 5 (SInt 55)) (PSeq (IPrintElem 8 2) (PSeq (IPrintElem 8 1) PEnd)))))))))).
 Definition exB : prog := PSeq (ISet 1 (SStr [])) (PSeq (IWait 3) (PSeq (IPrintVar 1) PEnd)).
 Definition ex1 : list op := [OStart exA; OStart exB].
 Definition ex2 : list op := [OAdvance 1; OExecute; OAdvance 1; OExecute; OAdvance 1; OExecute].
 Definition show (o : option obs) := option_map (fun o => (prints o, idle o, waiting o)) o.
 
-(* the archive: instances in list order (B first), A's threads in chain order, the second
-   variable of A's main thread is a pointer to the holder positioned by the first *)
+(* the archive: instances in list order (B first), A's threads in chain order (the child
+   first); the dynamic holder is written at its first occurrence (index 4) and contains a
+   POINTER to itself and, nested, the constant holder (index 5); every other occurrence in
+   either thread is a pointer *)
 Example C09_archive_example :
   match state_after (init 1000) ex1 with Some s => save s | None => None end =
-  Some (mkArc 6
-          [ mkAInst 1 [ mkAThr [(1, AScal (SStr []))] 2 (PSeq (IPrintVar 1) PEnd) ];
-            mkAInst 3 [ mkAThr [] 4 (PSeq (IPrint 3) PEnd);
-                        mkAThr [(4, ANewArr 5 [(1%Z, SInt 7)]); (5, APtrArr 5)] 6
-                               (PSeq (ISetElem 5 2 (SInt 9)) (PSeq (IPrintElem 4 2) PEnd)) ] ]
-          false 0 [(4, 1); (6, 2); (2, 3)]).
+  Some (mkArc 7
+          [ mkAInst 1 [ mkAThr (ACons 1 (AScal (SStr [])) ANil) 2 (PSeq (IPrintVar 1) PEnd) ];
+            mkAInst 3 [ mkAThr (ACons 101 (ANew false 4 (ACons 1 (AScal (SInt 1)) (ACons 40 (APtr false 4)
+                                   (ACons 41 (ANew true 5 (ACons 1 (AScal (SInt 10)) (ACons 2 (AScal (SInt 20))
+                                                           (ACons 3 (AScal (SInt 30)) ANil)))) ANil))))
+                                (ACons 102 (APtr true 5) ANil)) 6
+                               (PSeq (ISetElem 102 1 (SInt 111)) (PSeq (IPrintElem 102 2)
+                                (PSeq (IWait 2) (PSeq (IPrintElem 101 5) PEnd))));
+                        mkAThr (ACons 7 (APtr true 5) (ACons 8 (APtr true 5) (ACons 4 (APtr false 4) ANil))) 7
+                               (PSeq (ISetElem 7 2 (SInt 99)) (PSeq (ISetElem 4 5 (SInt 55))
+                                (PSeq (IPrintElem 8 2) (PSeq (IPrintElem 8 1) PEnd)))) ] ]
+          false 0 [(6, 1); (7, 2); (2, 3)]).
 Proof. vm_compute. reflexivity. Qed.
 
-(* the loaded state: instance list reversed, chain order and timer order kept, the two
-   variables share the loaded holder; and the continuation behaves as the uninterrupted run
-   (local.4[2] = 9 through the shared holder, the empty string is printed as such) *)
+(* the loaded state: instance list reversed, chain order and timer order kept, both sharing
+   classes rebuilt (holders 4 and 5); the continuation behaves as the uninterrupted run: the
+   child's store through local.102 is read by A through local.8, A's store through local.7 by
+   the child through local.102, A's store through local.4 by the child through local.101 *)
 Example C09_loaded_state_example :
   match state_after (init 1000) ex1 with
   | Some s =>
-      option_map (fun s' => (insts s, insts s',
-                             map (fun e => (th (ethr e), etime e, tenv (ethr e), theap (ethr e))) (elems s'),
+      option_map (fun s' => (insts s, insts s', heap s',
+                             map (fun e => (th (ethr e), etime e, tenv (ethr e))) (elems s'),
                              map show (run_from s' ex2))) (save_reset_load s)
   | None => None
   end =
-  Some ([[3]; [2; 1]], [[4; 6]; [2]],
-        [ (4, 1, [], []);
-          (6, 2, [(4, VArr 5); (5, VArr 5)], [(5, [(1%Z, SInt 7)])]);
-          (2, 3, [(1, VScal (SStr []))], []) ],
-        [ Some ([], false, true); Some ([PMark 3], false, true);
-          Some ([], false, true); Some ([PVal (SInt 9)], false, true);
-          Some ([], false, true); Some ([PVal (SStr [])], true, false) ]).
+  Some ([[3]; [2; 1]], [[6; 7]; [2]],
+        [ (4, [(1%Z, VScal (SInt 1)); (40%Z, VArr 4); (41%Z, VCon 5)]);
+          (5, [(1%Z, VScal (SInt 10)); (2%Z, VScal (SInt 20)); (3%Z, VScal (SInt 30))]) ],
+        [ (6, 1, [(101, VArr 4); (102, VCon 5)]);
+          (7, 2, [(7, VCon 5); (8, VCon 5); (4, VArr 4)]);
+          (2, 3, [(1, VScal (SStr []))]) ],
+        [ Some ([], false, true); Some ([PVal (SInt 20)], false, true);
+          Some ([], false, true); Some ([PVal (SInt 99); PVal (SInt 111)], false, true);
+          Some ([], false, true); Some ([PVal (SStr []); PVal (SInt 55)], true, false) ]).
 Proof. vm_compute. reflexivity. Qed.
 
 Example C09_uninterrupted_run_example :
   map show (run_from (init 1000) (ex1 ++ ex2)) =
-  [ Some ([PMark 1; PMark 2], false, true); Some ([], false, true);
-    Some ([], false, true); Some ([PMark 3], false, true);
-    Some ([], false, true); Some ([PVal (SInt 9)], false, true);
-    Some ([], false, true); Some ([PVal (SStr [])], true, false) ].
+  [ Some ([], false, true); Some ([], false, true);
+    Some ([], false, true); Some ([PVal (SInt 20)], false, true);
+    Some ([], false, true); Some ([PVal (SInt 99); PVal (SInt 111)], false, true);
+    Some ([], false, true); Some ([PVal (SStr []); PVal (SInt 55)], true, false) ].
 Proof. vm_compute. reflexivity. Qed.
